@@ -207,6 +207,72 @@ class Gen:
         self.main += ["op run DEFAULT", "op run DEFAULT", "op loop_close"]
         return self.cfg + self.on + self.main
 
+    def build_failing_submissions(self):
+        """request-submitting calls that fail synchronously (allocation failure injected into libuv's allocator, EBADF / ENOTCONN
+        refusals, NULL work_cb, rejected names) while other requests are in flight or not"""
+        r = self.r
+        self.cfg += [f"config metrics {int(r.chance(1, 2))}", "config clock0 1000", f"config cblimit {r.range(10, 25)}"]
+        self.kinds += ["pipe", "udp", "tcp", "timer", "pipe"]
+        self.main += ["op init pipe", "op init udp", "op init tcp", "op init timer", "op init pipe", f"op start h3 {r.range(1, 6)} {r.choice([0, 2])}"]
+        if r.chance(2, 3): self.main.append("op open h0")
+        fails = ["fail write h0", "fail write h4", "fail udp_send h1", "fail getaddrinfo", "fail fs_stat", "fail shutdown h2", "fail shutdown h4",
+                 "work_null", "udp_send_bad h1", "reject getaddrinfo", "reject random", "reject getnameinfo"]
+        inflight = ["work", "udp_send h1", "connect_bad h4", "work"]
+        for _ in range(r.range(2, 6)):
+            if r.chance(1, 2): self.main.append("op " + r.choice(inflight))
+            self.main.append("op " + r.choice(fails))
+            if r.chance(1, 4): self.main.append("op run " + r.choice(["NOWAIT", "ONCE"]))
+        self.on.append("on h3 0 " + " ; ".join(r.choice(fails) for _ in range(r.range(1, 3))))
+        if r.chance(1, 2): self.on.append("on r0 0 " + r.choice(fails))
+        self.main += ["op run ONCE", "op loop_close"]
+        for i in range(len(self.kinds)):
+            self.main.append(f"op close h{i}")
+        self.main += ["op run DEFAULT", "op run DEFAULT", "op loop_close"]
+        return self.cfg + self.on + self.main
+
+    def build_processes(self):
+        """child processes: several children reaped in one pass; closes from the exit callback, from other callbacks and from
+        main, in every order, handles freed in their close callback"""
+        r = self.r
+        n = r.range(2, 4)
+        self.cfg += [f"config metrics {int(r.chance(1, 2))}", "config clock0 1000", f"config cblimit {r.range(15, 30)}"]
+        self.kinds += ["timer"]
+        self.main += ["op init timer", f"op start h0 {r.range(1, 5)} {r.choice([0, 0, 3])}"]
+        for i in range(n):
+            self.kinds.append("process"); self.main.append(f"op spawn {r.choice([0, 0, 1, 7])}")
+        order = list(range(1, n + 1))
+        for k in range(len(order) - 1, 0, -1):
+            j = r.below(k + 1); order[k], order[j] = order[j], order[k]
+        for i in range(1, n + 1):
+            if r.chance(1, 4): self.on.append(f"on h{i} 0 close h{r.range(1, n)}")
+        if r.chance(1, 2): self.on.append("on h0 0 " + " ; ".join(f"close h{j}" for j in order[:r.range(1, n)]))
+        self.main.append("op run " + r.choice(["NOWAIT", "ONCE"]))
+        for j in order:
+            self.main.append(f"op close h{j}")
+            if r.chance(2, 3): self.main.append("op run NOWAIT")
+        self.main += ["op close h0", "op run DEFAULT", "op run DEFAULT", "op loop_close"]
+        return self.cfg + self.on + self.main
+
+    def build_async_threads(self):
+        """uv_async_send from a second thread that is still inside the call (after its wake-up write) while the loop thread
+        consumes the wake-up and closes the handle — from its own callback, another callback, or main"""
+        r = self.r
+        self.cfg += [f"config metrics {int(r.chance(1, 2))}", "config clock0 1000", f"config cblimit {r.range(10, 25)}"]
+        self.kinds += ["async", "async", "timer"]
+        self.main += ["op init async", "op init async", "op init timer"]
+        if r.chance(1, 2): self.main.append(f"op start h2 {r.range(0, 3)} 0")
+        self.on.append("on h0 0 " + r.choice(["close h0", "close h0", "close h0 ; close h1", "async_send h1", "alive"]))
+        if r.chance(1, 2): self.on.append("on h1 0 " + r.choice(["close h0", "close h1", "close h1 ; close h0"]))
+        if r.chance(1, 3): self.on.append("on h2 0 close h0")
+        self.main.append("op async_send_thread h0")
+        if r.chance(1, 3): self.main.append("op async_send h1")
+        if r.chance(1, 4): self.main.append("op close h0")
+        self.main.append("op run " + r.choice(["NOWAIT", "ONCE"]))
+        for i in range(3):
+            self.main.append(f"op close h{i}")
+        self.main += ["op run DEFAULT", "op run DEFAULT", "op loop_close"]
+        return self.cfg + self.on + self.main
+
     def build_embedder(self):
         """embedder style: I/O watchers started / changed outside uv_run (registrations pending in watcher_queue) with and
         without armed timers, uv_backend_timeout() before and after the loop applied them"""
@@ -259,6 +325,12 @@ class Gen:
             return self.build_embedder()
         if r.chance(1, 8 if self.bias == "C02" else 16):
             return self.build_signal_burst()
+        if self.bias == "C01" and r.chance(1, 8):
+            return self.build_failing_submissions()
+        if self.bias == "C02" and r.chance(1, 8):
+            return self.build_processes()
+        if self.bias == "C02" and r.chance(1, 14):
+            return self.build_async_threads()
         self.cfg.append(f"config metrics {int(r.chance(1, 2))}")
         self.default_loop = r.chance(1, 4)
         if self.default_loop:     # the loop under test is uv_default_loop(), looked up afresh at every use
@@ -436,6 +508,16 @@ class Mon:
                     H[ninit] = dict(kind=text[1], closing=False, dead=False); self.kinds_used.add(text[1])
                     if text[1] == "timer": T[ninit] = dict(active=False, due=0, rep=0, hascb=False)
                     ninit += 1
+                elif op == "spawn":
+                    H[ninit] = dict(kind="process", closing=False, dead=False); self.kinds_used.add("process"); ninit += 1
+                elif op == "fail":
+                    # a request-submitting call that fails must leave the request accounting untouched
+                    self.stats["failed_submissions"] = self.stats.get("failed_submissions", 0) + 1
+                    if ret >= 0:
+                        self.bad("C01", "fail-ret", f"`{' '.join(text)}` returned {ret}, an error was expected", i)
+                    if o0 and nxt and (o0["ar"], o0["ah"], o0["alive"], o0["nh"]) != (nxt["ar"], nxt["ah"], nxt["alive"], nxt["nh"]):
+                        self.bad("C01", "failed-submission-registered", f"the failed `{' '.join(text)}` changed the loop: active_reqs {o0['ar']} -> {nxt['ar']}, "
+                                 f"active_handles {o0['ah']} -> {nxt['ah']}, alive {o0['alive']} -> {nxt['alive']}", i)
                 elif op == "init_fail":
                     # a failed init leaves no trace: same handle count in uv_walk, same counters, same liveness
                     want = {"EMFILE": -24, "ENFILE": -23, "EAFNOSUPPORT": -97, "ENOBUFS": -105, "EINVAL": -22, "EBADF": -9}.get(text[2])
@@ -1044,7 +1126,7 @@ def prog_metrics(prog):
 
 
 def evaluate(ctx, exe, prog, tag, with_model=True):
-    if any(re.search(r"\b(touch|work_nocb|udp_send_nocb|dgram|init_fail|raise)\b|config eagain", l) for l in prog):
+    if any(re.search(r"\b(touch|work_nocb|udp_send_nocb|dgram|init_fail|raise|spawn|open|fail|async_send_thread)\b|config eagain", l) for l in prog):
         # file-system traffic, requests without completion callback, incoming datagrams / forced EAGAIN:
         # monitors only (the model has no semantics for them)
         with_model = False
